@@ -17,58 +17,66 @@ TABLE = {
         "exhaustive table enumeration + Hypothesis-generated user force-field file pairs and structures vs independent DAT/.names model",
         "The complete (force field x residue state x atom) lookup table of all six built-in force fields is enumerated "
         "against an independent re-implementation of the documented DAT + .names resolution; generated user .DAT/.names "
-        "pairs with construction-known truth; generated structures end-to-end: every written atom's charge/radius must be "
-        "the model's value for its final state, atoms without an entry must be omitted and reported.",
+        "pairs with construction-known truth; generated structures end-to-end (hidden chain ends, --ligand complexes with "
+        "foreign hetero groups): every written atom's charge/radius must be the model's value for its final state, atoms "
+        "without an entry must be omitted and reported; the residue/atom naming map is pinned (one direction).",
         "Trusts the data files as the definition of the parameters (read independently with ElementTree/str.split) and "
         "the documented .names semantics.",
         "DESIGN.md section 5, C01",
     ),
     "C02": (
         "property-based testing: generated sequences/structures, formal-charge oracle from explicit chemistry rules",
-        "Generated multi-chain / cyclic / nucleic inputs over every residue x position x force field; residue net charges "
-        "compared with chemistry-derived formal charges, termini counted per constructed chain end.",
+        "Exhaustive state table (32 input names x 3 chain positions x 6 force fields, PARSE with neutral termini) plus "
+        "generated multi-chain / hidden-end / mmCIF / cyclic / nucleic inputs; residue net charges compared with "
+        "chemistry-derived formal charges, termini counted per constructed chain end.",
         "Trusts the case descriptor (what the generator built) and the chemistry table in vf/topo.py.",
         "DESIGN.md section 5, C02",
     ),
     "C03": (
         "property-based testing: generated structures x option combinations, atom-conservation oracle",
-        "Every input heavy atom is tracked by key into the final model; model = written U unassigned; written atom sets "
-        "compared with the independently composed topology of the final state.",
+        "Every input heavy atom (incl. undefined extra atoms, alternative names, hidden chain ends, every mode) is tracked "
+        "into the final model; model = written U unassigned; written atom sets compared with the independently composed "
+        "topology of the final state; exhaustive --ffout table (same atoms, no duplicate names).",
         "Trusts the XML templates as definition of atom sets (read independently) and captured warning records.",
         "DESIGN.md section 5, C03",
     ),
     "C04": (
         "property-based testing: generated contact/clash structures, rigid-fragment superposition oracle",
-        "Contact-mode and real-window structures that provoke debumping and flips; input atoms matched by key; backbone "
-        "fixed, every rigid side-chain fragment must superpose with RMSD <= 1e-6 A, det=+1.",
+        "Contact-mode and real-window structures plus an exhaustive directed tip-clash table (every residue type x tip x "
+        "gap x atom order x mode, also on the titration route) that provoke debumping and flips; input atoms matched by "
+        "key; backbone fixed, every rigid side-chain fragment must superpose with RMSD <= 1e-5 A, det=+1.",
         "Trusts numpy SVD superposition and the template bond graph for fragment definition.",
         "DESIGN.md section 5, C04",
     ),
     "C05": (
         "property-based testing: generated structures with missing atoms, template bond length/angle oracle",
         "Added atoms (hydrogens, rebuilt heavy atoms, water hydrogens) compared with template bond lengths/angles of the "
-        "final state; attachment checked after debump/optimisation.",
+        "final state (generated structures, real windows, nucleic strands, tip-clash table, stretched / broken links); "
+        "attachment checked after debump/optimisation.",
         "Trusts template geometry in the XML files; tolerances calibrated on ideal-geometry inputs.",
         "DESIGN.md section 5, C05",
     ),
     "C06": (
         "exhaustive decision table (group x position x force field x pH side) in generated contexts + random pH/pKa",
         "pKa source replaced by harness-supplied rows; final states compared with pH<pKa gated by the support matrix "
-        "derived from the force-field model; monotone total charge along pH sweeps.",
+        "derived from the force-field model (five pH sides incl. 0.002 next to a many-digit pKa; neutral-termini and "
+        "opt/debump switches in the random part); monotone total charge along pH sweeps.",
         "Trusts the force-field model's support matrix; real PROPKA only sampled.",
         "DESIGN.md section 5, C06",
     ),
     "C07": (
         "property-based testing / structured fuzzing of PDB text layout vs independent fixed-column reader",
         "Generated layout mutations (blank lines, CRLF, unknown records, TER/END/MODEL bookkeeping, alt-locs, icodes, "
-        "short lines) over generated structures; ingested atoms compared as multisets with an independent column reader.",
+        "short lines, column content, odd MODEL lines) over generated structures with strands (old atom names) and undefined "
+        "hetero groups; ingested atoms compared as multisets with an independent column reader.",
         "Trusts the wwPDB column layout as implemented in vf/colfmt.py.",
         "DESIGN.md section 5, C07",
     ),
     "C08": (
         "property-based round-trip testing of PQR serialisation (fixed columns, whitespace tokens, pdb2pqr's own reader)",
         "Generated atom field tuples at width boundaries written through the real writer and read back by independent "
-        "column/token readers and io.read_pqr.",
+        "column/token readers and io.read_pqr; run level: file vs returned model for generated structures (PDB and mmCIF "
+        "input, --ffout, --clean) under all flag combinations.",
         "Trusts the PQR/PDB column conventions; overflow of fixed columns recorded as known findings.",
         "DESIGN.md section 5, C08",
     ),
@@ -88,28 +96,32 @@ TABLE = {
     "C11": (
         "stateful property-based testing (Hypothesis rule-based machine) over run histories + fresh-process references",
         "Histories of successful and failing runs in one process; every run's bytes compared with references produced in "
-        "fresh processes under several hash seeds.",
+        "fresh processes under 9 hash seeds; one directory per history (stale output in place); pool with exactly tied "
+        "hydrogen-bond networks, user force fields, mmCIF, ligand, failing runs.",
         "Samples hash seeds and histories; single-threaded code so schedules are not a dimension.",
         "DESIGN.md section 5, C11",
     ),
     "C12": (
         "property-based testing + generated fault injection at every processing stage",
         "Success side: complete generated residues x covering force fields must run; failure side: malformed inputs and "
-        "injected stage faults must raise and leave the output path untouched.",
+        "injected stage faults (exhaustive stage x exception x call x output-state enumeration; exhaustive malformed-input "
+        "table incl. mmCIF rows and size-dependent tolerances) must raise and leave the output path untouched.",
         "Stage list derived from main_driver/non_trivial; secondary outputs out of scope.",
         "DESIGN.md section 5, C12",
     ),
     "C13": (
         "property-based testing: generated cysteine pair placements, distance oracle, permutation metamorphic relation",
         "S-S distances around the 2.5 A limit, same/different chains, both file orders; symmetric CYX state, partner "
-        "pointers, thiol hydrogen presence; invariance under chain/file order permutation.",
+        "pointers, thiol hydrogen presence; invariance under chain/file order permutation; axis/offset placement grid; a "
+        "partner whose SG is missing from the input (rule applied to the rebuilt sulfur).",
         "Distances within 1e-6 of the limit excluded.",
         "DESIGN.md section 5, C13",
     ),
     "C14": (
         "stateful property-based testing (Hypothesis rule-based machine) of the cell map vs brute-force model",
         "Histories of add/remove/move on Cells(2|5) with boundary-seeking coordinates; after every step an all-pairs "
-        "brute-force comparison; plus pipeline-level wrapping of neighbour queries during real runs.",
+        "brute-force comparison; plus pipeline-level audit of neighbour queries during real runs (generated structures, "
+        "real windows, titration route): ghosts, misses, one-shot results, registration invariant.",
         "Cutoffs <= cell size as in every caller.",
         "DESIGN.md section 5, C14",
     ),
@@ -124,7 +136,8 @@ TABLE = {
     "C16": (
         "property-based testing: MOL2 fragment grammar with construction-known formal charges; permutation/renaming metamorphic relations",
         "Generated molecules: charge conservation, name independence, order dependence only within Weisfeiler-Lehman "
-        "classes, radii from the documented tables; complexes: ligand parameters only on ligand atoms, each once.",
+        "classes (rename-only twin: exact), radii from the documented tables; complexes (alt-locs, two bound copies, "
+        "titration route): ligand parameters only on ligand atoms, each once.",
         "Trusts the fragment grammar's valence bookkeeping for formal charges.",
         "DESIGN.md section 5, C16",
     ),
